@@ -1,11 +1,19 @@
 import TextxVerif.Wire
 import TextxVerif.RefList
+import TextxVerif.ResolveSched
 /-! Driver for the reference-list model under histories of loads (C08).
 ops:
   {"op":"history","runs":[[[obj,attr,pos,tgt]…]…]}
         one entry of `runs` per `ReferenceResolver` (model file of a load), in history order; each entry the
         references of its list attributes in the order they got resolved
      → {"runs":[[[obj,attr,[tgt…]]…]…]}   per run the content of every list attribute that occurs in it
+  {"op":"schedule","loads":[[[[obj,attr,pos,tgt,wait]…]…]…]}
+        per load its model files (any fixed order), per file the references of its list attributes in TEXTUAL
+        order with the number of provider calls answered `Postponed` (`wait`).  The model runs the resolver loop
+        itself (`Resolve.loopO` with `countOracle`: all files of a load, round after round) and feeds every
+        file's own `ReferenceResolver` (`RefList.run`) with the part of the resolution sequence that is its own
+     → {"loads":[{"pending":n,"files":[{"seq":[[obj,attr,pos]…],"lists":[[obj,attr,[tgt…]]…]}…]}…]}
+  ("history" accepts the field "loads" as well and then answers both "runs" and "loads")
 -/
 open Lean Wire RefList
 
@@ -22,12 +30,52 @@ def keysOf (seq : List KRef) : List Key :=
 def showRun (seq : List KRef) (st : State) : Json :=
   toJson ((keysOf seq).map fun k => Json.arr #[toJson k.1, toJson k.2, toJson (st.values k)])
 
+structure SRef where
+  k : KRef
+  wait : Nat
+  file : Nat
+
+def parseSRefs (file : Nat) (j : Json) : Option (List SRef) := do
+  let a ← asArr? j
+  a.toList.mapM fun e => do
+    match ← asNatList? e with
+    | [o, a, p, t, w] => pure { k := { key := (o, a), pos := p, tgt := t }, wait := w, file := file }
+    | _ => none
+
+def parseLoad (j : Json) : Option (List (List SRef)) := do
+  let a ← asArr? j
+  a.toList.zipIdx.mapM fun (f, i) => parseSRefs i f
+
+def runLoad (files : List (List SRef)) : Json :=
+  let tab : Array SRef := files.flatten.toArray
+  let refs := List.range tab.size
+  let wait (r : Nat) : Nat := match tab[r]? with | some s => s.wait | none => 0
+  let (p, res) := Resolve.loopO (Resolve.countOracle wait) (refs.length + 1) [] refs []
+  let seq := res.reverse
+  let perFile := (List.range files.length).map fun fi =>
+    let fseq := seq.filterMap fun r => match tab[r]? with
+      | some s => if s.file = fi then some s.k else none
+      | none => none
+    Json.mkObj [("seq", toJson (fseq.map fun k => [k.key.1, k.key.2, k.pos])), ("lists", showRun fseq (run fseq))]
+  Json.mkObj [("pending", toJson p.length), ("files", toJson perFile)]
+
 def handle (j : Json) : Json :=
   match getStr? j "op" with
   | some "history" =>
     match (getArr? j "runs").bind (fun a => a.toList.mapM parseKRefs) with
     | some runs =>
-      Json.mkObj [("runs", toJson ((runs.zip (history runs)).map fun (seq, st) => showRun seq st))]
+      let ans := ("runs", toJson ((runs.zip (history runs)).map fun (seq, st) => showRun seq st))
+      -- optional: the same loads as schedules (see op "schedule"), answered in the same line
+      match (j.getObjVal? "loads").toOption with
+      | none => Json.mkObj [ans]
+      | some v =>
+        match (asArr? v).bind (fun a => a.toList.mapM parseLoad) with
+        | some loads => Json.mkObj [ans, ("loads", toJson (loads.map runLoad))]
+        | none => badOp
+    | none => badOp
+  | some "schedule" =>
+    match (getArr? j "loads").bind (fun a => a.toList.mapM parseLoad) with
+    | some loads => Json.mkObj [("loads", toJson (loads.map runLoad))]
     | none => badOp
   | _ => badOp
 
